@@ -393,6 +393,32 @@ type c08Shadow struct {
 	pod c08Pod
 	obj *corev1.Pod
 	now int64 // clock value when it was assigned
+	// a later metadata-only update changed what the estimate reads (custom annotations, class labels); OnUpdate does not
+	// propagate such updates by design, so "the pod as assigned" is ambiguous: the oracles skip the node until the pod is
+	// assigned again or removed (the model correspondence still pins the behaviour as written)
+	stale bool
+}
+
+func (ns *c08NodeShadow) hasStale() bool {
+	for _, s := range ns.pods {
+		if s.stale {
+			return true
+		}
+	}
+	return false
+}
+
+// markStale: an update that left the cached pod alone although estimate-relevant metadata differs
+func (c *c08Run) markStale(node int, p c08Pod) {
+	cur, ok := c.ns(node).pods[p.uid]
+	if !ok {
+		return
+	}
+	if cur.pod.cls != p.cls || cur.pod.cf != p.cf || cur.pod.cSched != p.cSched || cur.pod.cInit != p.cInit {
+		cur.stale = true
+		c.ns(node).pods[p.uid] = cur
+		c.h.Tag("update:metadata-only-estimate-relevant")
+	}
 }
 
 func (s c08Shadow) timestamp() int64 {
@@ -985,6 +1011,9 @@ func (c *c08Run) observe() {
 		if len(ns.pods) > 0 {
 			c.busy++
 		}
+		if ns.hasStale() {
+			continue
+		}
 		// (a) from-scratch formulas
 		ep, en, ef := ns.expect(c.cfg)
 		if c08Vec2(v[0]) != ep {
@@ -1101,6 +1130,7 @@ func (c *c08Run) buildFilter(q c08Filter) (*Plugin, *corev1.Pod, *framework.Node
 func (c *c08Run) doFilter(q c08Filter) {
 	h := c.h
 	pl, pod, ni, state := c.buildFilter(q)
+	c.emitShape(q.pod, pod)
 	h.Op("filter %s", q.toks())
 	var st *fwktype.Status
 	if h.Guard(func() { st = pl.Filter(context.TODO(), state, pod, ni) }) {
@@ -1155,6 +1185,9 @@ func (c *c08Run) doFilter(q c08Filter) {
 	}
 	if !m.hasInfo {
 		return // a report without node usage: nothing to compare against
+	}
+	if ns.hasStale() {
+		return
 	}
 	ep, en, _ := ns.expect(c.cfg)
 	var base [2]int64
@@ -1806,6 +1839,8 @@ func (c *c08Run) doRace(k int) {
 }
 
 type c08ConcEv struct {
+	pod    *c08Pod     // the pod the op line carries (its raw shape, if any, is announced before the line)
+	obj    *corev1.Pod
 	op     string
 	run    func()
 	shadow func()
@@ -1826,6 +1861,8 @@ func (c *c08Run) shUpdate(oldNode int, p c08Pod, obj *corev1.Pod, now int64) {
 			c.shUnassign(p.specNode, p.uid)
 		case !c08SpecEq(p, cur.pod) || p.sched != cur.pod.sched || p.init != cur.pod.init:
 			c.shAssign(p.specNode, p, obj, now)
+		default:
+			c.markStale(p.specNode, p)
 		}
 	}
 	c.pool[p.uid] = p
@@ -1859,7 +1896,7 @@ func (c *c08Run) doSegment(node, nUID int, near, now int64) {
 			p.specNode, p.term, p.rsv = node, false, false
 			obj := p.build(c.t0)
 			inInit := r.Bool()
-			pEvs = append(pEvs, &c08ConcEv{op: fmt.Sprintf("add %d %s", now, p.toks()),
+			pEvs = append(pEvs, &c08ConcEv{pod: &p, obj: obj, op: fmt.Sprintf("add %d %s", now, p.toks()),
 				run:    func() { c.pc.OnAdd(obj, inInit) },
 				shadow: func() { c.shAssign(p.specNode, p, obj, now); c.pool[p.uid] = p }})
 			c.checkFloat(p)
@@ -1871,7 +1908,7 @@ func (c *c08Run) doSegment(node, nUID int, near, now int64) {
 			}
 			p.specNode, p.term, p.rsv = 0, false, false
 			obj := p.build(c.t0)
-			pEvs = append(pEvs, &c08ConcEv{op: fmt.Sprintf("rsv %d %d %s", node, now, p.toks()),
+			pEvs = append(pEvs, &c08ConcEv{pod: &p, obj: obj, op: fmt.Sprintf("rsv %d %d %s", node, now, p.toks()),
 				run:    func() { c.pl.Reserve(context.TODO(), framework.NewCycleState(), obj, c08NodeName(node)) },
 				shadow: func() { c.shAssign(node, p, obj, now); c.pool[p.uid] = p }})
 			c.checkFloat(p)
@@ -1888,12 +1925,14 @@ func (c *c08Run) doSegment(node, nUID int, near, now int64) {
 			if p.term { // a terminal pod stays terminal here (that would be a delete-type event)
 				p.term = false
 			}
-			switch r.Intn(4) {
-			case 0:
+			switch mut := r.Intn(4); {
+			case p.raw != nil && mut != 1:
+				c08MutRaw(r, &p, c.cfg.specIDs)
+			case mut == 0:
 				c08GenRes(r, &p)
-			case 1:
+			case mut == 1:
 				p.sched = c08Cond{k: 2, t: now}
-			case 2:
+			case mut == 2:
 				p.cls = []int{1, 1, 2, 3, 4}[r.Intn(5)]
 			}
 			oldNode := old.specNode
@@ -1904,7 +1943,7 @@ func (c *c08Run) doSegment(node, nUID int, near, now int64) {
 			o.specNode = oldNode
 			var oldObj interface{} = o.build(c.t0)
 			obj := p.build(c.t0)
-			pEvs = append(pEvs, &c08ConcEv{op: fmt.Sprintf("upd %d %d %s", oldNode, now, p.toks()),
+			pEvs = append(pEvs, &c08ConcEv{pod: &p, obj: obj, op: fmt.Sprintf("upd %d %d %s", oldNode, now, p.toks()),
 				run:    func() { c.pc.OnUpdate(oldObj, obj) },
 				shadow: func() { c.shUpdate(oldNode, p, obj, now) }})
 			c.checkFloat(p)
@@ -1940,7 +1979,7 @@ func (c *c08Run) doSegment(node, nUID int, near, now int64) {
 				p.term = true
 				var oldObj interface{} = o.build(c.t0)
 				obj := p.build(c.t0)
-				pEvs = append(pEvs, &c08ConcEv{op: fmt.Sprintf("upd %d %d %s", node, now, p.toks()),
+				pEvs = append(pEvs, &c08ConcEv{pod: &p, obj: obj, op: fmt.Sprintf("upd %d %d %s", node, now, p.toks()),
 					run:    func() { c.pc.OnUpdate(oldObj, obj) },
 					shadow: func() { c.shUpdate(node, p, obj, now) }})
 				pool[uid] = p
@@ -2005,6 +2044,9 @@ func (c *c08Run) doSegment(node, nUID int, near, now int64) {
 
 	h.Op("cbegin")
 	for _, e := range pEvs {
+		if e.pod != nil {
+			c.emitShape(*e.pod, e.obj)
+		}
 		h.Op("%s", e.op)
 	}
 	for _, e := range mEvs {
@@ -2203,6 +2245,7 @@ func TestVerifC08(t *testing.T) {
 		if r.Chance(3, 4) { // mostly the usual configuration: both factors present
 			c.cfg.f = [2]int64{int64(r.Range(50, 100)), int64(r.Range(50, 100))}
 		}
+		c.cfg.glue, c.cfg.specIDs = idx%4 == 1, map[string]int{} // every 4th case: raw pod shapes (glue stream)
 		c.nNodes = r.Range(1, 3)
 		c.args = c.cfg.args()
 		c.vec = NewResourceVectorizerFromArgs(c.args)
@@ -2296,6 +2339,7 @@ func TestVerifC08(t *testing.T) {
 					node = 1
 				}
 				obj := p.build(t0)
+				c.emitShape(p, obj)
 				h.Op("rsv %d %d %s", node, now, p.toks())
 				h.Tag("op:reserve")
 				c.checkFloat(p)
@@ -2321,6 +2365,7 @@ func TestVerifC08(t *testing.T) {
 			case kind < 57: // informer add
 				p := c08GenPod(r, c.cfg, r.Range(1, nUID), c.nNodes, near)
 				obj := p.build(t0)
+				c.emitShape(p, obj)
 				h.Op("add %d %s", now, p.toks())
 				h.Tag("op:add")
 				c.checkFloat(p)
@@ -2335,7 +2380,16 @@ func TestVerifC08(t *testing.T) {
 					p = c08GenPod(r, c.cfg, uid, c.nNodes, near)
 					old = p
 				}
-				switch r.Intn(9) {
+				mut := r.Intn(9)
+				if p.raw != nil && (mut <= 2 || mut == 8) {
+					c08MutRaw(r, &p, c.cfg.specIDs) // labels / annotation texts (metadata only) or the PodSpec
+					mut = 99
+				} else if c.cfg.glue && mut == 8 && known { // metadata-only update of a plain pod: the custom annotations change
+					p.cf = [2]int64{c08Factor(r), c08Factor(r)}
+					p.cSched, p.cInit = c08Secs(r), c08Secs(r)
+					h.Tag("update:metadata-only")
+				}
+				switch mut {
 				case 0:
 					c08GenRes(r, &p)
 				case 1:
@@ -2372,6 +2426,7 @@ func TestVerifC08(t *testing.T) {
 					oldObj = o.build(t0)
 				}
 				obj := p.build(t0)
+				c.emitShape(p, obj)
 				h.Op("upd %d %d %s", oldNode, now, p.toks())
 				h.Tag("op:update")
 				c.checkFloat(p)
@@ -2389,6 +2444,8 @@ func TestVerifC08(t *testing.T) {
 						c.shUnassign(p.specNode, uid)
 					case !c08SpecEq(p, cur.pod) || p.sched != cur.pod.sched || p.init != cur.pod.init:
 						c.shAssign(p.specNode, p, obj, now)
+					default:
+						c.markStale(p.specNode, p)
 					}
 				}
 				c.pool[uid] = p
